@@ -277,6 +277,7 @@ func bubble(f func()) (deadlock, hung bool) {
 	case dl := <-done:
 		if dl {
 			recordLeaked()
+			deadlocks++
 		}
 		return dl, false
 	case <-time.After(hangLimit):
@@ -285,6 +286,18 @@ func bubble(f func()) (deadlock, hung bool) {
 }
 
 const hangLimit = 20 * time.Second
+
+// cases that left goroutines behind for ever; after many of them the harness stops early
+// (the dumps get slow and the point is made)
+var deadlocks int
+
+func stopIfLeaky() {
+	if deadlocks >= 200 {
+		fmt.Println("NOTE 200 cases left goroutines blocked for ever; the harness stopped early")
+		w.Close()
+		os.Exit(0)
+	}
+}
 
 func stopAfterHang() {
 	fmt.Println("NOTE a call kept running without blocking after its deadline: virtual time could not advance; the harness stopped after recording this case")
@@ -770,16 +783,21 @@ func main() {
 		return
 	}
 	r := lib.NewRng(a.Seed)
-	nc, nh := 7000, 3500
+	nc, nh := 3500, 3500
 	if a.Tier == "thorough" {
-		nc, nh = 120000, 50000
+		nc, nh = 60000, 50000
 	}
 	corpus()
-	for i := 0; i < nc; i++ {
-		genCollect(r)
-	}
-	for i := 0; i < nh; i++ {
-		genHistory(r)
+	// rounds and histories interleaved, so that a run that stops early has seen both
+	for i := 0; i < nc || i < nh; i++ {
+		if i < nc {
+			genCollect(r)
+			genCollect(r.Fork())
+		}
+		if i < nh {
+			genHistory(r)
+		}
+		stopIfLeaky()
 	}
 }
 
